@@ -5,4 +5,9 @@ CONSTANTS
   AllCursors = FALSE
   Glue = {}
   ParamMax = 0
+  LOpen = {}
+  LFill = {}
+  LSpan = {}
+  LSep = {}
+  LFollow = {}
 INVARIANTS Judge
